@@ -69,8 +69,38 @@ fn build(cn: &str, san: Option<&str>, ca: bool, not_before: i64, not_after: i64,
     Identity { key: k, cert: b.build() }
 }
 
+/// A second certificate for the SAME trust anchor (same subject, same key, self-signed) whose DER encoding ends in
+/// an ASCII white-space octet (the last octet of an ECDSA signature is uniformly distributed; ~51 attempts on
+/// average). DER is binary: anything that treats a root as text (trim, lines, from_utf8) mangles exactly this one.
+pub fn same_anchor_der_ending_in_whitespace(ca: &Identity) -> Vec<u8> {
+    let t = now();
+    for _ in 0..100_000 {
+        let mut b = X509::builder().unwrap();
+        b.set_version(2).unwrap();
+        let mut serial = BigNum::new().unwrap();
+        serial.rand(100, MsbOption::MAYBE_ZERO, false).unwrap();
+        b.set_serial_number(&serial.to_asn1_integer().unwrap()).unwrap();
+        b.set_subject_name(ca.cert.subject_name()).unwrap();
+        b.set_issuer_name(ca.cert.subject_name()).unwrap();
+        b.set_pubkey(&ca.key).unwrap();
+        b.set_not_before(&Asn1Time::from_unix(t - DAY).unwrap()).unwrap();
+        b.set_not_after(&Asn1Time::from_unix(t + 3650 * DAY).unwrap()).unwrap();
+        b.append_extension(BasicConstraints::new().critical().ca().build().unwrap()).unwrap();
+        b.append_extension(KeyUsage::new().critical().key_cert_sign().crl_sign().build().unwrap()).unwrap();
+        b.sign(&ca.key, MessageDigest::sha256()).unwrap();
+        let der = b.build().to_der().unwrap();
+        if matches!(der.last(), Some(0x09 | 0x0a | 0x0c | 0x0d | 0x20)) {
+            return der;
+        }
+    }
+    eprintln!("MACHINERY-ERROR could not mint a DER certificate ending in white space");
+    std::process::exit(2)
+}
+
 pub struct Pki {
     pub ca: Identity,
+    /// same anchor as `ca`, DER ending in a white-space octet
+    pub ca_der_ws: Vec<u8>,
     pub unrelated_ca: Identity,
     #[allow(dead_code)]
     pub hidden_ca: Identity,
@@ -93,8 +123,10 @@ impl Pki {
             ("self-signed", build("localhost", Some("localhost"), false, t - DAY, t + 3650 * DAY, None)),
             ("unknown-ca", build("localhost", Some("localhost"), false, t - DAY, t + 3650 * DAY, Some(&hidden_ca))),
         ];
+        let ca_der_ws = same_anchor_der_ending_in_whitespace(&ca);
         Pki {
             ca,
+            ca_der_ws,
             unrelated_ca,
             hidden_ca,
             servers,
